@@ -97,7 +97,7 @@ struct SimConfig {
     double sync_fcoll = 0.5;             // probability a file collective synchronises
     std::map<std::string, std::string> env; // environment seen by the library
     std::map<std::string, long> knobs;      // pnc_verif_knob values
-    long max_steps = 200000;
+    long max_steps = 1000000;
     // explicit schedule (replay): decision index -> rank; when replaying, deviations come from here
     bool explicit_schedule = false;
     std::vector<std::pair<long, int>> deviations;
